@@ -248,7 +248,7 @@ REG.update({
         "components": S5_COMPONENTS,
         "assumptions": ["objects are those the node and the harness generate in runs plus work-field presence copies of transactions; zero-vs-absent and maximum-width combinations of other fields are not generated (pure codec algebra over arbitrary inputs is outside this technique)",
                         "Receipt.Status 'locked' (2) is stored as 'successful' (same consensus encoding); the processing-time receipt is not observable from outside the processor, so that field is not compared",
-                        "termini, pending-ETX bundles and p2p request/response frames are exercised only indirectly (through the dom/sub calls and the node's own database reads)", "RLP of ETXs in the ETX trie is covered by C04's queue check only"],
+                        "termini, pending-ETX bundles and the peer protocol's request / response frames built around each block are round-tripped through their wire encodings; rollups only through the dom/sub calls", "RLP of ETXs in the ETX trie is covered by C04's queue check only"],
     },
     "C03": {
         "level": "exploration",
@@ -275,7 +275,7 @@ REG.update({
                  "oracle: the price of the memory growth a step causes (3 gas/word + words^2/512) never exceeds what that step was charged in total."),
         "expect_probes": ["corrupt.bit-flip", "corrupt.truncate", "corrupt.huge-length-prefix", "corrupt.tx-bit-flip", "corrupt.donor-script-truncated", "donor_frames_parsed", "memory_growth_checked", "large_memory_expansion"],
         "components": {"real": S5_COMPONENTS["real"] + ["p2p/pb gossip codec (ConvertAndMarshal / UnmarshalAndConvert)", "Core.SanityCheckWorkObject*ViewBody", "TxPool.AddRemote", "vm interpreter with a vm.Tracer"],
-                       "stub": S5_COMPONENTS["stub"] + ["the libp2p transport and the gossipsub validator wrapper (signature/PoW filter of shares) are not run", "request/response frames, RLP and hex/JSON RPC argument decoders are not fed", "the AuxPoW parser sequence is replayed from the gossip validator's source, the validator wrapper itself is not run"]},
+                       "stub": S5_COMPONENTS["stub"] + ["the libp2p transport and the gossipsub validator wrapper (signature/PoW filter of shares) are not run", "RLP and hex/JSON RPC argument decoders are not fed; request / response frames of the peer protocol are fed to DecodeQuaiMessage / DecodeQuaiRequest / DecodeQuaiResponse and the sanity checks, not to the stream handlers", "the AuxPoW parser sequence is replayed from the gossip validator's source, the validator wrapper itself is not run"]},
         "assumptions": ["frames are corruptions of real traffic, not arbitrary byte strings", "the 'memory proportional to the input' clause of decoders is not measured (allocation deltas are not attributable in a multi-goroutine process)",
                         "raw block submission, RLP and hex/JSON argument decoders are not exercised by this check"],
     },
